@@ -263,7 +263,7 @@ Qed.
 
 (* ---- Request.parse: what an accepted request was made of -------------------------------------------------- *)
 Section World.
-Variables (inet4_ok inet6_ok netloc_ok : bytes -> bool).
+Variables (inet4_ok inet6_ok : bytes -> inet_res) (netloc_ok : bytes -> bool).
 Notation parse_request := (parse_request inet4_ok inet6_ok netloc_ok).
 Notation parse_after_line := (parse_after_line netloc_ok).
 Notation parse_request_line := (parse_request_line netloc_ok).
@@ -329,7 +329,7 @@ Lemma parse_request_inv c p reqno data r rest :
     parse_after_line c p (r_ppi r) line rbuf = PAccept r rest /\
     (forall i, r_ppi r = Some i ->
        proxy_protocol c = true /\ reqno = 1 /\ proxy_allowed c p = true /\
-       exists pl rb, cut_crlf data = Some (pl, rb) /\ starts_with s_PROXY pl = true /\ parse_proxy_line pl = Some i) /\
+       exists pl rb, cut_crlf data = Some (pl, rb) /\ starts_with s_PROXY pl = true /\ parse_proxy_line pl = PLOk i) /\
     (r_ppi r = None -> proxy_line_taken c reqno data = false).
 Proof.
   unfold parse_request, http_part, proxy_line_taken.
@@ -338,7 +338,7 @@ Proof.
   apply read_line_inv in Er. rewrite Er.
   destruct (proxy_protocol c && (reqno =? 1) && starts_with s_PROXY line) eqn:Eg.
   - destruct (negb (proxy_allowed c p)) eqn:Ea; [discriminate|].
-    destruct (parse_proxy_line line) as [info|] eqn:Ep; [|discriminate].
+    destruct (parse_proxy_line line) as [info| |] eqn:Ep; [|discriminate|discriminate].
     destruct (read_line (eff_limit_line c) rbuf) as [line2 rbuf2| |e] eqn:Er2; try discriminate.
     apply read_line_inv in Er2. intros H.
     assert (Hppi : r_ppi r = Some info).
@@ -408,7 +408,7 @@ Qed.
 (* the facts that make a PROXY declaration legitimate for this connection *)
 Definition proxy_gate (c : cfg) (p : peer) (data : bytes) (i : proxy_info) : Prop :=
   proxy_protocol c = true /\ proxy_allowed c p = true /\
-  exists pl rb, cut_crlf data = Some (pl, rb) /\ starts_with s_PROXY pl = true /\ parse_proxy_line pl = Some i.
+  exists pl rb, cut_crlf data = Some (pl, rb) /\ starts_with s_PROXY pl = true /\ parse_proxy_line pl = PLOk i.
 
 Lemma carry_step_inv c w r carry r' carry' :
   carry_step c w r carry = (r', carry') ->
@@ -554,7 +554,7 @@ Qed.
 (* the gate is not only necessary: a PROXY line that passes it is what request 1 carries *)
 Theorem proxy_line_is_applied_proof : forall c p data pl rb i r rest,
   proxy_protocol c = true -> cut_crlf data = Some (pl, rb) -> starts_with s_PROXY pl = true ->
-  parse_proxy_line pl = Some i ->
+  parse_proxy_line pl = PLOk i ->
   parse_request c p 1 data = PAccept r rest -> r_ppi r = Some i.
 Proof.
   intros c p data pl rb i r rest Hpp Hcut Hst Hline Hp.
